@@ -46,6 +46,12 @@ def main():
     finally:
         subprocess.run(["git", "-C", "/repo", "checkout", "--", "."], check=True)
         subprocess.run(["git", "-C", "/repo", "clean", "-fdq", "crates"], check=False)
+    # leave .build in step with the restored tree
+    subprocess.run(["cargo", "build", "--offline", "--manifest-path", "/repo/Cargo.toml", "--workspace", "--bins", "--features",
+                    "erbium-core/verif-hooks", "--target-dir", "/verif/.build/repo"], stdout=subprocess.DEVNULL, stderr=subprocess.DEVNULL,
+                   env=dict(os.environ, CARGO_NET_OFFLINE="true"))
+    subprocess.run(["cargo", "build", "--offline", "--manifest-path", "/verif/harness/Cargo.toml", "--target-dir", "/verif/.build/harness"],
+                   stdout=subprocess.DEVNULL, stderr=subprocess.DEVNULL, env=dict(os.environ, CARGO_NET_OFFLINE="true"))
     json.dump(out, open(os.path.join(d, "check-result-%s.json" % tier), "w"), indent=1)
     return 0
 
